@@ -31,6 +31,12 @@ import logging
 import math
 import multiprocessing as mp
 import random
+from decimal import Decimal
+
+try:
+    import numpy as np
+except ImportError:  # pragma: no cover
+    np = None
 
 from harness import core, values as V, diffcommon as D
 from harness.core import coq_pystr, coq_list, coq_Z
@@ -210,6 +216,10 @@ def lit(v):
         return "set([" + ", ".join(lit(x) for x in v) + "])"
     if isinstance(v, E):
         return "E." + v.name
+    if isinstance(v, Decimal):
+        return "Decimal(%r)" % str(v)
+    if np is not None and isinstance(v, np.generic):
+        return "np.%s(%r)" % (type(v).__name__, v.item())
     if isinstance(v, float) and v != v:
         return "float('nan')"
     if isinstance(v, datetime.datetime):
@@ -227,7 +237,7 @@ def _dt(y, mo, d, h, mi, s, us, off=None):
 
 def unlit(s):
     return eval(s, {"__builtins__": {"set": set, "frozenset": frozenset, "float": float}, "E": E, "dt": _dt,
-                    "True": True, "False": False, "None": None})
+                    "True": True, "False": False, "None": None, "Decimal": Decimal, "np": np, "inf": float("inf")})
 
 
 # --------------------------------------------------------------------------
@@ -240,8 +250,22 @@ KEYSTR = ["a", "b", "A", "B", "ab", "Ab", "k1", "K1", "x y", "", "1", "none"]
 PRIV = ["__a", "__A", "__p", "__"]
 
 
+_NUMX = False      # set by gen_pairs: the numeric options get Decimal / numpy scalars / extreme magnitudes as leaves
+
+
+def numx_atom(rng):
+    pool = [Decimal("1.5"), Decimal("2"), Decimal("-0.25"), Decimal("3.125"), Decimal("1.1"), Decimal("100.004"),
+            1e20, -3e18, 1e-9, 2.5e-7, 123456789012345678, 2 ** 70, 1e15 + 0.5]
+    if np is not None:
+        pool += [np.uint8(3), np.uint8(200), np.uint8(0), np.uint16(7), np.int8(-7), np.int32(-7), np.int64(5), np.uint64(9),
+                 np.float32(1.5), np.float64(2.25), np.float32(0.1), np.float64(1e20), np.float32(-0.75)]
+    return rng.choice(pool)
+
+
 def gen_atom(rng, rich=False, nan_ok=False):
     r = rng.random()
+    if rich and _NUMX and r < 0.45:
+        return numx_atom(rng)
     if r < 0.08:
         return None
     if r < 0.16:
@@ -297,10 +321,17 @@ def gen_key(rng, bytes_ok, numeric_ok, rich=False, nan_ok=False):
     return rng.choice(KEYSTR)
 
 
+def _eq(a, b):
+    try:
+        return bool(a == b)
+    except Exception:  # noqa  (Decimal == numpy scalar raises)
+        return False
+
+
 def distinct(items):
     out = []
     for k in items:
-        if all(not (k == q) for q in out) and not (isinstance(k, float) and k != k and any(isinstance(q, float) and q != q for q in out)):
+        if all(not _eq(k, q) for q in out) and not (isinstance(k, float) and k != k and any(isinstance(q, float) and q != q for q in out)):
             out.append(k)
     return out
 
@@ -327,13 +358,58 @@ def is_nan(a):
     return isinstance(a, float) and a != a
 
 
+def to_dec(x):
+    """the exact value of a number (int, float, Decimal, numpy scalar)"""
+    if isinstance(x, Decimal):
+        return x
+    if np is not None and isinstance(x, np.generic):
+        x = x.item()
+    return decimal.Decimal(x)
+
+
+def is_number(a):
+    if isinstance(a, bool) or (np is not None and isinstance(a, np.bool_)):
+        return False
+    if isinstance(a, (int, float, Decimal)) or (np is not None and isinstance(a, np.number)):
+        try:
+            return math.isfinite(a)
+        except (TypeError, OverflowError):
+            return True
+    return False
+
+
 def same_bucket(x, y, d):
     """x and y round (half-even, exact arithmetic) to the same multiple of 10^-d"""
     q = decimal.Decimal(1).scaleb(-d)
     with decimal.localcontext() as c:
-        c.prec = 60
-        return decimal.Decimal(x).quantize(q, rounding=decimal.ROUND_HALF_EVEN) == \
-            decimal.Decimal(y).quantize(q, rounding=decimal.ROUND_HALF_EVEN)
+        c.prec = 80
+        return to_dec(x).quantize(q, rounding=decimal.ROUND_HALF_EVEN) == to_dec(y).quantize(q, rounding=decimal.ROUND_HALF_EVEN)
+
+
+def retype(a, rng):
+    """the same number as an object of another numeric type (exactly equal values only)"""
+    v = to_dec(a)
+    kinds = [int, float]
+    if _NUMX:
+        kinds += [Decimal]
+        if np is not None:
+            kinds += [np.float64, np.int64, np.uint8, np.int32, np.float32, np.uint64]
+    out = []
+    for T in kinds:
+        try:
+            if T is Decimal:
+                c = v
+            elif T in (int,) or (np is not None and isinstance(T, type) and issubclass(T, np.integer)):
+                if v != v.to_integral_value():
+                    continue
+                c = T(int(v))
+            else:
+                c = T(float(v))
+            if type(c) is not type(a) and to_dec(c) == v:
+                out.append(c)
+        except (OverflowError, ValueError, TypeError, decimal.InvalidOperation):
+            continue
+    return out
 
 
 def atom_of_types(rng, names, rich):
@@ -373,38 +449,56 @@ def alt_atom(rng, a, sp, pos, rich, p):
             cands.append((a.encode("ascii"), "strty"))
         elif isinstance(a, bytes):
             cands.append((a.decode("ascii"), "strty"))
-    num = isinstance(a, (int, float)) and not isinstance(a, bool) and not is_nan(a) and not (isinstance(a, float) and math.isinf(a))
+    num = is_number(a)
+    plain = type(a) in (int, float)
     if sp["numty"] and num:
-        if isinstance(a, int) and abs(a) < 2 ** 53:
+        if _NUMX:
+            for c in retype(a, rng):
+                cands.append((c, "numty"))
+        elif isinstance(a, int) and abs(a) < 2 ** 53:
             cands.append((float(a), "numty"))
         elif isinstance(a, float) and a == int(a):
             cands.append((int(a), "numty"))
     if sp["sig"] is not None and num:
         d = sp["sig"]
         ys = []
-        if isinstance(a, float):
+        if type(a) is float:
             ys += [a + 0.5, a - 0.5, a + 1.0, a - 1.0]
             if rich:
                 ys += [float("%.*f" % (d, a)), a + 0.3 * 10 ** -d, a - 0.3 * 10 ** -d, a * (1 + 1e-12)]
             if sp["numty"]:
                 ys += [int(a), int(a) + 1, int(a) - 1]
-        elif sp["numty"]:
+        elif type(a) is int and sp["numty"]:
             ys += [a + 0.5, a - 0.5]
+        elif isinstance(a, Decimal):
+            ys += [a + Decimal(3).scaleb(-d - 1), a - Decimal(3).scaleb(-d - 1), a + Decimal(1).scaleb(-d - 6)]
+        elif np is not None and isinstance(a, np.floating):
+            ys += [type(a)(float(a) + 0.3 * 10 ** -d), type(a)(float(a) - 0.3 * 10 ** -d)]
         for y in ys:
             if not (type(y) is type(a) and y == a) and same_bucket(a, y, d):
                 cands.append((y, "sig"))
     if sp["eps"] is not None and num:
         e = sp["eps"]
         ys = []
-        if isinstance(a, float):
+        if type(a) is float:
             ys += [a + 0.5, a - 0.5, a + 1.0, a - 1.0, a + 2.0]
             if rich:
                 ys += [a + 0.9 * e, a - 0.9 * e, a + 0.5 * e * rng.random()]
-        else:
+        elif type(a) is int:
             ys += [a + 1, a - 1, a + 2]
+        elif isinstance(a, Decimal):
+            ys += [a + Decimal(e) * Decimal("0.9"), a - Decimal(e) * Decimal("0.5")]
+        elif np is not None and isinstance(a, np.integer):
+            info = np.iinfo(type(a))
+            ys += [type(a)(int(a) + k) for k in (1, -1, 2) if info.min <= int(a) + k <= info.max]
+        elif np is not None and isinstance(a, np.floating):
+            ys += [type(a)(float(a) + 0.5 * e), type(a)(float(a) - 0.9 * e)]
         for y in ys:
-            if y != a and abs(decimal.Decimal(y) - decimal.Decimal(a)) <= decimal.Decimal(e):
-                cands.append((y, "eps"))
+            try:
+                if y != a and abs(to_dec(y) - to_dec(a)) <= to_dec(e):
+                    cands.append((y, "eps"))
+            except (decimal.InvalidOperation, OverflowError):
+                pass
     if sp["excl"] and excluded_py(a, sp["excl"]):
         b = atom_of_types(rng, sp["excl"], rich)
         if b is not None and not (type(b) is type(a) and b == a):
@@ -626,6 +720,13 @@ def features(a, b):
         f.add("has_datetime")
     if any(isinstance(x, float) and (x != x or math.isinf(x)) for x in at):
         f.add("has_nan_inf")
+    for x in at:
+        if is_number(x):
+            try:
+                if abs(to_dec(x)) >= 10 ** 12:
+                    f.add("huge_number")
+            except Exception:  # noqa
+                pass
     if any(isinstance(k, (int, float)) for k in ks):
         f.add("numeric_key")
     if any(isinstance(k, bytes) for k in ks):
@@ -804,7 +905,9 @@ def oracle_case(args):
                 "exc": opt[1] if opt[0] == "raised" else None, "what": what,
                 "n_reports": None if opt[0] == "raised" else sum(len(v) if hasattr(v, "__len__") else 1 for v in opt[1].values())}
     if fam == "alt":
-        if opt[0] == "raised":
+        if opt[0] == "raised" and base[0] == "raised":
+            pass      # DeepDiff rejects the pair with and without the options (e.g. Decimal == numpy scalar inside difflib): not C11's business
+        elif opt[0] == "raised":
             fails.append(case("A", "DeepDiff(x, normalise_F(x), **F) raises %s" % opt[1]))
         elif opt[1]:
             fails.append(case("A", "DeepDiff(x, normalise_F(x), **F) is not empty"))
@@ -839,6 +942,13 @@ def m_excl_default_list(c):
     return (c["clause"] == "A" and c["exc"] is None and not c["zip"] and bool(c["spec"]["excl"])
             and any(x.endswith("@leaf") or x.endswith("@sub") for x in c["altered"])
             and c.get("n_reports") == 1)      # the signature: exactly ONE report survives, so the pairwise pass is not tried
+
+
+def m_num_precision(c):
+    """equal numbers of different type are rendered differently when the magnitude exceeds what the float detour of
+    number_to_string keeps: '{:.12f}'.format(int) goes through float (ints beyond 2^53), numpy's round(x, 12) multiplies by 10^12"""
+    return (c["clause"] == "A" and c["exc"] is None and any(x.startswith("numty@") for x in c["altered"])
+            and "huge_number" in c["features"])
 
 
 def m_excl_set(c):
@@ -934,6 +1044,7 @@ MATCHERS = {
     "C11-ENUM-TYPE": m_enum_type,
     "C11-SIG0-NAN": m_sig0_nan,
     "C11-EXCL-SET": m_excl_set,
+    "C11-NUM-PRECISION": m_num_precision,
     "C11-EXCL-DEFAULT-LIST": m_excl_default_list,
     "C11-NUMGROUP-DATETIME": m_numgroup_dt,
     "C11-NUM-KEY": m_num_key,
@@ -1032,6 +1143,8 @@ def atom_level(ctx, n):
 # --------------------------------------------------------------------------
 def gen_pairs(rng, sp, n, rich):
     """[(family, a, b, log)]"""
+    global _NUMX
+    _NUMX = bool(rich and (sp["numty"] or sp["sig"] is not None or sp["eps"] is not None))
     out = []
     for i in range(n):
         numeric_ok = True
@@ -1188,6 +1301,7 @@ WITNESSES = [
     ("C11-EXCL-SET", {"0"}, {b"0"}, mk(strty=True, excl=["bytes"]), "nonempty"),
     ("C11-EXCL-DEFAULT-LIST", [1, "x", 2, 1], [2, "x", 1, 3], mk(excl=["int"]), "nonempty"),
     ("C11-SIG0-NAN", [float("nan")], [1.0], mk(sig=0), "raises:ValueError"),
+    ("C11-NUM-PRECISION", 123456789012345678, Decimal(123456789012345678), mk(numty=True), "nonempty"),
     ("C11-TRUNC-BEFORE-TZ", {"k": _dt(2024, 6, 1, 12, 40, 27, 0, 120)}, {"k": _dt(2024, 6, 1, 16, 25, 27, 0, 345)}, mk(trunc="hour"), "nonempty"),
 ]
 
